@@ -50,6 +50,12 @@ CHECKS = {
  "C08": dict(cat="exploration", tech="runtime monitoring of generate + execution/compilation of its output: fresh-interpreter import and construction of every generated Python writer/serializer, g++ -std=c++17 -fsyntax-only of every generated TU, file.write event log checked for path collisions; hostile-identifier, option-matrix and init workloads",
    text="Held for the ordinary corpus and the option matrix; hostile identifiers expose six listed known-finding classes (namespace shadowing, case-conversion collisions, helper-name collisions, version labels, init names, vector<bool>). Exploration over the identifier lists.",
    note="Trusted: g++ 12 with harness shims (no xtensor/date/HDF5); MATLAB output is not parsed; hdf5 TUs are not compiled.", ref="§5 C08"),
+ "C19": dict(cat="exploration", tech="runtime monitoring with an exact-arithmetic oracle: exhaustive 13x13x5 operand-type table through the CLI (acceptance symmetry, declared C++/Python result types), generated C++ and Python computed fields executed on reference-encoded records and compared with exact rational values",
+   text="Type table exhaustive; values and a 29-expression catalogue sampled. Held except one listed known finding (integer division of opposite signs).",
+   note="Trusted: Python Fraction arithmetic as the mathematical value; 'in range' = operands and exact result representable in the static result type; MATLAB not executable.", ref="§5 C19"),
+ "C20": dict(cat="exploration", tech="runtime monitoring of the real watcher under the Go race detector with forced interleavings: verif-tag delay points make the k-th regeneration slow (overtaken by a later one), event-log based quiescence, convergence oracle against a one-shot generate, liveness and race-report monitors",
+   text="Held on the schedules explored (seeded timed edit scripts around the 5 ms debounce + forced overtaking schedules) after serialising regenerations; exploration over schedules, not all interleavings. Liveness is restated as bounded progress.",
+   note="Trusted: hook events only log/sleep outside locks; quiescence decided on events; wall-clock bounds only yield inconclusive.", ref="§5 C20"),
 }
 NA_REASON = "check not built yet in this session (work in progress, see DESIGN.md §5 for the planned monitor)"
 
